@@ -11,13 +11,14 @@ Ops/MultilinearSparse; indexing: Ops/IndexSparse; the operations of the sparse m
 and `sptensor.copy`: Ops/SptenmatOps).
 Only property theorems and examples; proofs are in Lemmas/SparseOrderIndep.lean, the
 Lemmas/SparseElem*.lean files, Lemmas/SparseOrderML / SparseOrderIndex / SparseSquash,
-Lemmas/SptenmatOps.lean and Lemmas/SparseReadWF.lean.
+Lemmas/SptenmatOps.lean, Lemmas/SptenmatSorted.lean and Lemmas/SparseReadWF.lean.
 -/
 import PyttbModel.Lemmas.SparseOrderIndep
 import PyttbModel.Lemmas.SparseOrderML
 import PyttbModel.Lemmas.SparseSquash
 import PyttbModel.Lemmas.SparseOrderIndex
 import PyttbModel.Lemmas.SptenmatOps
+import PyttbModel.Lemmas.SptenmatSorted
 import PyttbModel.Lemmas.SparseReadWF
 namespace Pyttb
 open SpElem
@@ -879,6 +880,58 @@ theorem C06_perm_sptenmat_isequal_counterexample :
     let M' : Sptenmat Int := ⟨[2, 3], [0], [1], [[0, 0], [1, 2]], [2, 3]⟩
     M.mat.WF ∧ Sptenmat.SameUpToOrder M' M ∧ M.isequal M = true ∧ M'.isequal M = false :=
   ⟨⟨rfl, by decide, by decide, by decide⟩, ⟨rfl, rfl, rfl, rfl, rfl, by decide⟩, by decide, by decide⟩
+
+/-! ### canonical stored order: literally the same object for every stored order -/
+
+/-- `M.copy()` / `copy.deepcopy(M)` / `+M` sort the triples by (row, column): a receiver that
+stores the same triples in another order gets literally the same object — or the same refusal. -/
+theorem C06_perm_sptenmat_copy_literal [AddCommMonoid α] [DecidableEq α] (M M' : Sptenmat α)
+    (hl : M.subs.length = M.vals.length) (hs : Sptenmat.SameUpToOrder M' M) :
+    M'.copy = M.copy ∧ M'.pos = M.pos :=
+  ⟨Sptenmat.copy_eq_of_sameUpToOrder M M' hl hs, Sptenmat.copy_eq_of_sameUpToOrder M M' hl hs⟩
+
+/-- the same for `-M`. -/
+theorem C06_perm_sptenmat_neg_literal [Ring α] [DecidableEq α] (M M' : Sptenmat α)
+    (hl : M.subs.length = M.vals.length) (hs : Sptenmat.SameUpToOrder M' M) : M'.neg = M.neg :=
+  Sptenmat.neg_eq_of_sameUpToOrder M M' hl hs
+
+/-- … hence `isequal` IS independent of the stored order once both sides went through `copy`
+(the canonical form): the copies of two receivers that store the same triples are `isequal`. -/
+theorem C06_perm_sptenmat_isequal_canonical [AddCommMonoid α] [DecidableEq α] (M M' R R' : Sptenmat α)
+    (hl : M.subs.length = M.vals.length) (hs : Sptenmat.SameUpToOrder M' M)
+    (h : M.copy = .ok R) (h' : M'.copy = .ok R') : R'.isequal R = true := by
+  rw [Sptenmat.copy_eq_of_sameUpToOrder M M' hl hs, h] at h'
+  cases h'
+  exact (Sptenmat.isequal_iff R R).2 rfl
+
+/-- `M[key] = value` that appends at least one pair re-sorts the triples: for a well-formed
+receiver and a key that names no cell twice, the stored result is literally the same for every
+stored order of the receiver.  (When only stored pairs are overwritten the stored order is
+kept, and `C06_perm_sptenmat_setitem` gives the same triples up to order.) -/
+theorem C06_perm_sptenmat_setitem_appended [Zero α] [BEq α] (M M' : Sptenmat α) (hM : M.mat.WF)
+    (hs : Sptenmat.SameUpToOrder M' M) (key : List Sptenmat.KeyPart) (rhs : Sptenmat.SetRhs α)
+    (cvs : List (List Nat × α)) (h : M.setCells key rhs = .ok cvs) (hnd : (cvs.map (·.1)).Nodup)
+    (hnew : ∃ cv ∈ cvs, cv.1 ∉ M.subs) :
+    M'.setitem key rhs = M.setitem key rhs := by
+  have hc := Sptenmat.setCells_congr M M' key rhs hs.1 hs.2.1 hs.2.2.1
+  unfold Sptenmat.setitem
+  rw [hc, h]
+  simp only
+  congr 1
+  apply Sptenmat.setApply_eq_of_appended M M' cvs hM hnd hs
+  obtain ⟨cv, hcv, hnot⟩ := hnew
+  intro hempty
+  have hin := (Sptenmat.setCells_spec M key rhs cvs h).1
+  have : cv ∈ cvs.filter fun cv => !M.subs.any (Sptenmat.hits cv.1) := by
+    rw [List.mem_filter]
+    refine ⟨hcv, ?_⟩
+    simp only [Bool.not_eq_true', List.any_eq_false]
+    intro s hs'
+    rw [Sptenmat.hits_eq_beq (Sptenmat.mshape_length M) (hin cv hcv) (hM.inb s hs')]
+    have : cv.1 ≠ s := fun e => hnot (e ▸ hs')
+    simpa using this
+  rw [hempty] at this
+  cases this
 
 /-! ### the statements are about something -/
 
